@@ -20,8 +20,41 @@ public:
 	friend void swap(small_vector &a, small_vector &b) {
 		using std::swap;
 		swap(a._allocator, b._allocator);
-		swap(a._array, b._array);
-		swap(a._elements, b._elements);
+		if(!a._is_small() && !b._is_small()) {
+			swap(a._elements, b._elements);
+		}else if(a._is_small() && b._is_small()) {
+			// Both use their inline storage: exchange the elements object by object.
+			auto ac = a._get_container();
+			auto bc = b._get_container();
+			size_t common = a._size < b._size ? a._size : b._size;
+			for(size_t i = 0; i < common; i++) {
+				T tmp(std::move(ac[i]));
+				ac[i].~T();
+				new (&ac[i]) T(std::move(bc[i]));
+				bc[i].~T();
+				new (&bc[i]) T(std::move(tmp));
+			}
+			for(size_t i = common; i < a._size; i++) {
+				new (&bc[i]) T(std::move(ac[i]));
+				ac[i].~T();
+			}
+			for(size_t i = common; i < b._size; i++) {
+				new (&ac[i]) T(std::move(bc[i]));
+				bc[i].~T();
+			}
+		}else{
+			// Move the inline elements over and hand the heap buffer to the other vector.
+			small_vector &s = a._is_small() ? a : b;
+			small_vector &h = a._is_small() ? b : a;
+			auto sc = s._get_container();
+			auto hc = reinterpret_cast<value_type *>(&h._array[0].buffer);
+			for(size_t i = 0; i < s._size; i++) {
+				new (&hc[i]) T(std::move(sc[i]));
+				sc[i].~T();
+			}
+			s._elements = h._elements;
+			h._elements = nullptr;
+		}
 		swap(a._size, b._size);
 		swap(a._capacity, b._capacity);
 	}
